@@ -1,11 +1,105 @@
-"""C16 tie + search: see ties/_mux.py (shared muxer harness and extracted model)."""
+"""C16 tie + search: see ties/_mux.py (shared muxer harness and extracted model), plus the codec-string leg:
+harness/cmd/codecstr calls the real codecparams.Marshal on codec values built from drawn field records and
+Tie/CodecStrTie.v (vm_compute) compares every returned string with Model/CodecStr.v."""
+import json
 import os
+import re
 import sys
 sys.path.insert(0, os.path.dirname(os.path.abspath(__file__)))
 import _mux  # noqa: E402
+import vlib  # noqa: E402
 
 META = dict(_mux.META_COMMON)
+META["coq_targets"] = list(_mux.META_COMMON["coq_targets"]) + ["Tie/CodecStrTie.vo"]
+META["trusted_base"] = list(_mux.META_COMMON["trusted_base"]) + [
+    "codec strings: hand-written Gallina transcription Model/CodecStr.v of pkg/codecparams/marshal.go over the fields "
+    "Marshal reads, tied to /repo by the codec-string leg (harness/cmd/codecstr: real codecparams.Marshal on codec values "
+    "whose H265 SPS / AV1 sequence-header bytes are written from drawn fields; the fields are read back with mediacommon's "
+    "own parsers, as Marshal does; Tie/CodecStrTie.v by vm_compute). Parsing the parameter bytes (h265.SPS.Unmarshal, "
+    "av1.SequenceHeader.Unmarshal, VP9 / MPEG-4 Audio configuration parsing upstream of the codec value) is not modelled: "
+    "the parsed fields are the model's input; fmt_int (strconv.FormatInt) is the one of Model/PlaylistBase.v",
+]
+META["assumptions"] = list(_mux.META_COMMON["assumptions"]) + [
+    "codec-string theorems: field values within the ranges of the Go types as the parsers fill them (codec_fields_ok: "
+    "profile_space 2 bits, tier 1 bit, profile_idc 5 bits, 32 compatibility flags, level 8 bits; AV1 seq_profile 3 bits, "
+    "seq_level_idx 5 bits, bit depth >= 0, chroma_sample_position 2 bits, colour code points 8 bits; VP9 uint8 fields; "
+    "SPS bytes; MPEG-4 Audio object type >= 0)",
+]
+
+CODECSTR_KINDS = {1: "model string differs from the real Marshal output",
+                  2: "real Marshal output rejected by the grammar wf_codec_string"}
+
+
+def codecstr_leg(ctx, t, only=False):
+    """runs the codec-string leg; mismatches are appended to t.mismatches (observable 'codecstr'), counts go to
+    t.extra['codecstr'] (a key of the evidence coverage)"""
+    leg = {"ran": False}
+    t.extra["codecstr"] = leg
+    ok, log, binp = vlib.build_harness("codecstr")
+    if not ok:
+        t.errors.append("go build (codecstr) failed: " + log[-2000:])
+        return
+    out = os.path.join(ctx["work"], "codecstr")
+    vlib.run(["rm", "-rf", out])
+    cmd = [binp, "-seed", str(ctx["seed"]), "-tier", ctx["tier"], "-out", out]
+    if ctx["replay"]:
+        cmd += ["-replay", ctx["replay"]]
+    rc, o = vlib.run(cmd, timeout=1200)
+    if rc != 0 or not os.path.exists(os.path.join(out, "result.json")):
+        t.errors.append("codecstr harness failed: " + o[-2000:])
+        return
+    r = json.load(open(os.path.join(out, "result.json")))
+    leg.update({"ran": True, "evaluations": r["evaluations"], "distinct_nontrivial": r["distinct_nontrivial"],
+                "rule": r["rule"], "distribution": r["distribution"], "shards": r["shards"],
+                "samples": (r["samples"] or [])[:3], "model_evaluated_by": "not run", "model_mismatches": 0})
+    for s in r.get("self_check") or []:
+        t.errors.append("codecstr harness self-check: " + s)
+    floor = 0 if ctx["replay"] else {"quick": 300, "thorough": 3000}[ctx["tier"]]
+    if r["distinct_nontrivial"] < floor:
+        t.errors.append("codecstr generator produced %d distinct non-trivial records (floor %d)"
+                        % (r["distinct_nontrivial"], floor))
+    if not ctx["model_available"]:
+        return
+    cases = {(c["shard"], c["index"]): c for c in r["cases"]}
+    leg["model_evaluated_by"] = "coqc vm_compute (Tie/CodecStrTie.v)"
+    found = []
+    for res in vlib.eval_shards(out, jobs=8):
+        if not res["ok"]:
+            t.errors.append("codecstr model evaluation failed on %s: %s" % (res["shard"], res["error"]))
+            continue
+        shard = int(re.findall(r"(\d+)\.v$", res["shard"])[0])
+        raw = res.get("raw", "")
+        for idx in res["bad"]:
+            c = cases[(shard, idx)]
+            m = re.search(r"\(%d(?:%%nat)?\s*,\s*\[([^\]]*)\]" % idx, raw)
+            ks = [int(x) for x in re.findall(r"(\d+)%nat", m.group(1))] if m else []
+            found.append({"observable": "codecstr", "input": c["input"],
+                          "detail": "codec family %s: %s" % (c["what"], "; ".join(CODECSTR_KINDS.get(k, str(k)) for k in ks)
+                                                             or "model and real codecparams.Marshal disagree")})
+    found.sort(key=lambda m: len(json.dumps(m["input"])))
+    leg["model_mismatches"] = len(found)
+    t.mismatches += found
+    if only:
+        t.evaluations = r["evaluations"]
+        t.distinct_nontrivial = r["distinct_nontrivial"]
+        t.rule = r["rule"]
+        t.distribution = r["distribution"]
+        t.min_nontrivial = 0
+
+
+def is_codecstr_replay(path):
+    try:
+        return json.load(open(path)).get("correspondence") == "tie:C16:codecstr"
+    except (OSError, ValueError, AttributeError):
+        return False
 
 
 def run(ctx):
-    return _mux.run_mux(ctx, "C16")
+    if ctx["replay"] and is_codecstr_replay(ctx["replay"]):
+        t = vlib.Tie()
+        codecstr_leg(ctx, t, only=True)
+        return t
+    t = _mux.run_mux(ctx, "C16")
+    if not ctx["replay"] and not ctx["widen"]:
+        codecstr_leg(ctx, t)
+    return t
